@@ -346,8 +346,13 @@ def schema_harness(prefix, layout, ops, minlen=1, maxlen=1, probe_max=2, unwind=
     const, levels, n, _ = LAYOUTS[layout]
     if unwind is None:
         unwind = max(9, len(ops) + 2)  # MAXE + 1 = 9 for the table loops; ops loop
-    src = "glue_harness!(%s, %d, {\n    let ops = [%s];\n    run_schema(%s, &ops, %d, %d, %d);\n});\n" % (
-        name, unwind, ", ".join(_op_rs(o) for o in ops), const, minlen, maxlen, probe_max)
+    covers = ["valid || !valid"]
+    if n >= 2 and any(o.endswith(":sym") for o in ops):
+        covers += ["qr < rank(key_of(0))", "qr > rank(key_of(%d))" % (n - 1), "qr == rank(key_of(1))", "qr > rank(key_of(0)) && qr < rank(key_of(1))"]
+    if n >= 1:
+        covers += ["valid"]
+    src = "glue_harness!(%s, %d, {\n    let ops = [%s];\n    let (qr, valid) = run_schema(%s, &ops, %d, %d, %d);\n    let _ = qr;\n%s});\n" % (
+        name, unwind, ", ".join(_op_rs(o) for o in ops), const, minlen, maxlen, probe_max, "".join("    kani::cover!(%s);\n" % c for c in covers))
     return name, src
 
 
@@ -391,8 +396,8 @@ G("c03_hist", "l2a", ["first", "next", "clone", "next", "next", "fork:next"], ["
 G("c03_hist", "l2a", ["last", "clone", "prev", "prev", "fork:prev", "reset", "next"], ["C03", "C16"], tier=Q3, mem="medium")
 # base cases of the induction and reset
 G("c03_hist", "l2a", ["next", "current", "reset", "prev", "current", "reset", "current"], ["C03", "C16"], tier=Q3)
-G("c03_hist", "e2", ["next", "prev", "first", "last", "ge:sym", "reset", "le:sym"], ["C03", "C02", "C01"], tier={"C03": "quick", "C01": "quick", "*": "thorough"})
-G("c03_hist", "e0", ["first", "last", "eq:sym", "next"], ["C03", "C02", "C01"], tier="thorough")
+G("c03_hist", "e2", ["next", "reset", "prev", "first", "last", "ge:sym", "le:sym", "reset", "current"], ["C03", "C02", "C01"], tier={"C03": "quick", "C01": "quick", "*": "thorough"})
+G("c03_hist", "e0", ["first", "last", "eq:sym", "reset", "next"], ["C03", "C02", "C01"], tier="thorough")
 # thorough: the same patterns on the other layouts, deeper trees, more crossings
 for _lay, _n in (("l2b", 4), ("l2c", 5), ("l3", 4), ("l1", 4), ("l0b", 4)):
     G("c03_hist", _lay, ["first", "first"] + ["next"] * (_n - 1) + ["first", "ge:%d" % (_n - 1), "ge:0"], ["C03", "C16"], tier="thorough")
@@ -600,7 +605,7 @@ def GL(layout, cls, props, tier="quick", mem="light", timeout=1800, minlen=1, ma
 
 
 for _cls in (0, 1, 2):
-    GL("l2a", _cls, ["C02", "C03"], mem="medium" if _cls == 2 else "light")
+    GL("l2a", _cls, ["C02", "C03"], mem="medium" if _cls == 2 else "light", tier={"C02": "quick", "*": "thorough"})
     GL("l0b", _cls, ["C02"], minlen=0, maxlen=2, probe_max=3, tier="quick" if _cls < 2 else "thorough", mem="medium" if _cls == 2 else "light")
     for _lay in ("l2b", "l2c", "l3", "l1"):
         GL(_lay, _cls, ["C02"], tier="thorough", mem="medium")
@@ -756,6 +761,33 @@ PROPS = {
                 text="Every byte string ending in a V1 trailer opens as FormatV1 with the fields at the V1 positions (all field values "
                      "symbolic); write_into(V1) is its inverse; cursor/iterator glue is shown not to depend on the file version.",
                 note="V1 files with real codecs are outside (codecs not encodable). No V1 writer exists; the reference encoder provides the trailer."),
+    "C02": dict(claimed=True, design="§5 C02",
+                text="Layered, each layer decided by the solver over all keys/probes inside the bound: (L2) the real in-block ceiling/floor search equals the "
+                     "sorted-array model from every pre-position, probe length 0..=3; (L3) the real multi-level seek glue over abstract blocks returns the exact "
+                     "ceiling / match of a symbolic probe on fresh and reset cursors for every layout of the family (0..3 index levels, empty files); the "
+                     "<= seek is decided as the real code over the contract of the >= seek, split into its three outcome classes. Counterexamples are replayed "
+                     "through the public API on real bytes.",
+                note="Composition of the layers (AC model, contracts) is the stated paper step; fan-out <= 3, <= 2 entries per data block, keys <= 2 bytes."),
+    "C03": dict(claimed=True, design="§5 C03",
+                text="History independence decided two ways: (H) concrete operation schemas with symbolic keys/probes around block- and index-block-crossing "
+                     "patterns, clone and reset; (S) induction: one operation from EVERY cursor state satisfying the representation invariant (symbolic "
+                     "state built directly), post-state re-establishes the invariant, base case = fresh cursor. Together: all histories of any length within "
+                     "the layout bound. In-block moves are discharged against the real BlockCursor (L2).",
+                note="RI (recorded offset truthful-or-foreign, path consistency) is checked inductive by the registered base/step harnesses; layout family bound as C02."),
+    "C04": dict(claimed=True, design="§5 C04",
+                text="Bound tests decided as a kernel for all bound kinds and strings <= 3 bytes; iteration decided by induction: first next() of a fresh "
+                     "iterator (initial seek replaced by one outcome of its contract, both outcomes covered) yields the first in-range entry and "
+                     "leaves RI-strong; every later next() from every RI-strong state yields the adjacent entry iff in range. Symbolic bound kinds and strings, no ordering assumed.",
+                note="Seek contracts are discharged under C02; contiguity of in-range entries follows from sortedness (paper step)."),
+    "C05": dict(claimed=True, design="§5 C05",
+                text="advance_key decided as a kernel (prefix <= 4 bytes, keys <= 5 bytes: least upper bound of the prefixed keys, None iff empty/all-0xFF); "
+                     "prefix iteration decided by the same first/step induction as C04 with symbolic prefix of length 0..=3 over keys of length 0..=2.",
+                note="As C04."),
+    "C16": dict(claimed=True, design="§5 C16",
+                text="Open I/O decided over every valid trailer (2 seeks, 21/22 bytes, inside the last 22 bytes); per-operation block loads <= 2 x (levels + 2), each "
+                     "preceded by exactly one absolute seek, asserted inside every glue harness (schemas and every-state step harnesses), i.e. for every "
+                     "cursor state in the invariant, not only fresh cursors.",
+                note="Independence from fan-out / file size is argued from the glue's structure (one block per level), not proved beyond fan-out 3."),
 }
 
 NOT_YET = "check not built yet in this revision (work in progress; see DESIGN.md §5)"
